@@ -85,7 +85,7 @@ func c16Build(n int) ([]*c16Class, bool) {
 			bases = append(bases, avail[p])
 			avail = append(append([]int{}, avail[:p]...), avail[p+1:]...)
 		}
-		t := &Type{Name: "C" + strconv.Itoa(i), Dict: StringDict{}, ObjectType: TypeType}
+		t := &Type{Name: "C" + strconv.Itoa(i), Dict: StringDict{}, ObjectType: TypeType, Flags: TPFLAGS_HEAPTYPE} // as classes defined in Python are
 		for _, b := range bases {
 			t.Bases = append(t.Bases, cs[b].t)
 		}
